@@ -138,6 +138,7 @@ func c03Assignment(circuit, class string) (frontend.Circuit, bool) {
 		panic(fmt.Sprintf("cannot bump %T", v))
 	}
 	switch class {
+	case "short", "long":
 	case "badpublic":
 		a.P[0] = bump(a.P[0])
 	case "badsecret":
@@ -188,6 +189,23 @@ func c03Run(b *C03Beh) C03Res {
 		return res
 	}
 	pub, _ := full.Public()
+	if cfg.Witness == "short" || cfg.Witness == "long" {
+		// a witness vector of the wrong size (all public): Prove must refuse it with an error
+		vec := pubVector(full)
+		if cfg.Witness == "short" {
+			if len(vec) == 0 {
+				res.Outcome = "skip"
+				return res
+			}
+			vec = vec[:len(vec)-1]
+		} else {
+			vec = append(vec, vec[0])
+		}
+		if full, err = witnessFromVector(vec); err != nil {
+			res.Outcome, res.Err = "setup-error", err.Error()
+			return res
+		}
+	}
 	var popts []backend.ProverOption
 	var vopts []backend.VerifierOption
 	switch cfg.PHtf {
